@@ -14,7 +14,14 @@ ID = "C08"
 def make_plan(seed: int, tier: str, opts: dict) -> dict:
     r = random.Random(seed)
     spec = common.gen_supported_spec(r, max_nodes=opts.get("max_nodes", 4), overrun_bias=0.7)
-    if r.random() < opts.get("leaf_p", 0.5):
+    if r.random() < opts.get("fast_sink_p", 0.25):
+        from simrex import spec as _sp2
+
+        s3 = __import__("copy").deepcopy(spec)
+        _sp2.add_fast_sinks(s3, r)
+        if _sp2.in_S(s3) is None:
+            spec = s3
+    elif r.random() < opts.get("leaf_p", 0.5):
         from simrex import spec as _sp
 
         for _ in range(20):
